@@ -3,7 +3,7 @@
    (NativeNameG: exact name, then upper-case 8.3 name, then first legal match
    in sorted order; default extension; dots; blanks) drives one directory
    through create / open / FILES / NAME / KILL with EVERY name over a tiny
-   alphabet, and every step is judged by DosNames!Judge - the same operator
+   alphabet (plus fixed sets of wildcard masks and NAME targets), and every step is judged by DosNames!Judge - the same operator
    that judges the real interpreter in DosNames_Trace.
    AsCodedNames = TRUE reproduces the pinned code (names with an empty trunk
    are created but hidden from FILES and KILL; a leading blank raises 53):
@@ -17,8 +17,10 @@ VARIABLES D, born, last
 vars == <<D, born, last>>
 
 MCRoots == (67 :> <<>>)
-Universe == UNION {[1..k -> Alphabet] : k \in 0..MaxLen}
-Short == UNION {[1..k -> Alphabet] : k \in 1..2}
+Universe == UNION {[1..k -> Alphabet] : k \in 0..MaxLen}                 \* names given to create / open / NAME source
+\* wildcard masks (FILES, KILL) and NAME targets: fixed small sets
+Masks == {<<42>>, <<42, 46, 42>>, <<65, 42>>, <<63>>, <<42, 46, 98>>, <<63, 63, 46, 42>>, <<42, 46>>, <<46, 42>>}
+Targets == {<<65>>, <<98, 46, 98>>, <<46, 32>>, <<65, 32, 65>>, <<32, 98>>, <<65, 98, 46>>, <<46, 98>>, <<65, 42>>, <<65, 65, 32>>}
 Queries == Universe \cup UNION {CaseVariants(b[2]) : b \in born}
 Kinds == {"data", "prog"}
 
@@ -70,14 +72,15 @@ Do(r) == /\ last' = [v |-> Judge(D, born, r.e, r.da), e |-> r.e]
          /\ born' = BornAfter(D, born, r.e, r.da)
 Next == \/ \E n \in Universe, k \in Kinds : Do(RCreate(n, k))
         \/ \E n \in Queries, k \in Kinds : Do(ROpen(n, k))
-        \/ \E n \in Queries : Do(RFiles(n)) \/ Do(RKill(n))
-        \/ \E n \in Queries, m \in Short : Do(RName(n, m))
+        \/ \E n \in Queries \cup Masks : Do(RFiles(n)) \/ Do(RKill(n))
+        \/ \E n \in Queries, m \in Targets : Do(RName(n, m))
 Spec == Init /\ [][Next]_vars
 
 View == <<D, born>>
 Bound == Cardinality(D) <= MaxFiles /\ Cardinality(born) <= MaxFiles
 \* the property: every step of the reference is accepted
-Accepted == last.v = "ok"
+\* (an ACTION property: with a VIEW, state invariants are evaluated only on states whose view is new)
+Accepted == [][last'.v = "ok"]_vars
 \* consequences stated directly: files made by BASIC have upper-case legal 8.3 host names, and every file made under
 \* a name is found by the lookup under every capitalisation of that name
 UpperLegal == \A f \in Names(D) : IsLegal(f) /\ Normalise(f) = f
